@@ -61,8 +61,8 @@ ASSUMPTIONS = [
     "all inputs of one join share frame rate, image shape and trace names (inputs of one "
     "measurement run, as the CLI help demands); the process time zone has no DST "
     "transition on 2021-03-04..06",
-    "a part that the documented boundary-image skipping leaves without events is not "
-    "opened (counted as excluded)",
+    "a part that the documented boundary-image skipping leaves without events may be "
+    "omitted from the output or be a file without events (not opened, counted)",
     "equal time stamps with different run index: ascending run index or given order are "
     "both accepted",
 ]
@@ -189,8 +189,8 @@ def st_split(draw):
     fin = draw(st.integers(0, 9)) < 8
     keep = split_keep(n, zeros, czero0, ini, fin)
     if any(len(w) == 0 for w in split_windows(n, size, keep)) \
-            and draw(st.integers(0, 9)) < 8:
-        # a part without events (known finding): keep this class small
+            and draw(st.integers(0, 9)) < 5:
+        # a part without events: keep this class at a moderate size
         zeros -= {0, n - 1}
         czero0 = False
     rt = draw(st.sampled_from(["none", "inorder", "inorder", "reversed", "reversed"]))
@@ -489,6 +489,8 @@ def _run_split(spec, rec, d):
         rec.nontrivial()
     tag = "boundary-zero" if (not keep.all()) else ("interior-zero" if zeros else "plain")
 
+    if emptied:
+        rec.cls("split:part-emptied")
     outdir = d / "parts"
     try:
         paths = cli.split(path_in=src, path_out=outdir, split_events=size,
@@ -496,14 +498,23 @@ def _run_split(spec, rec, d):
                           ret_out_paths=True)
     except ValueError as e:
         if emptied:
-            rec.cls("split:part-emptied")
             rec.fail("split/exception/part-emptied-by-boundary-skip",
                      f"dclab-split raises {e!r}: N={n}, split_events={size}, the only "
                      f"event of a part is a skipped empty boundary image")
             return
         raise
-    rec.check(len(paths) == nparts, f"split/count/{tag}",
-              lambda: f"{len(paths)} parts for N={n}, split_events={size}")
+    # a part that the documented skipping leaves without events may be omitted
+    nonempty = [ix for ix in exp_idx if len(ix)]
+    if len(paths) == nparts:
+        pairs = list(zip(paths, exp_idx))
+    elif len(paths) == len(nonempty):
+        pairs = list(zip(paths, nonempty))
+    else:
+        rec.fail(f"split/count/{tag}",
+                 f"{len(paths)} parts for N={n}, split_events={size}, expected {nparts}"
+                 + (f" (or {len(nonempty)} without the emptied part)" if emptied else ""))
+        return
+    rec.checks += 1
     with dclab.new_dataset(src) as ds:
         innate = sorted(f for f in ds.features_innate)
         ref = {f: _read(ds, f) for f in innate}
@@ -512,7 +523,7 @@ def _run_split(spec, rec, d):
     rec.check(set(innate) == feats, "harness/innate-features",
               lambda: f"source innate {innate} != written {sorted(feats)}")
     total = 0
-    for ii, (pp, ix) in enumerate(zip(paths, exp_idx)):
+    for ii, (pp, ix) in enumerate(pairs):
         if len(ix) == 0:
             rec.skip("split:empty-part-not-opened")
             continue
@@ -554,15 +565,14 @@ def _run_split(spec, rec, d):
                       lambda: f"part {ii + 1}: {dict(pe)} vs source {src_exp}")
             rec.check(pe.get("event count") == len(dp), "split/metadata/event-count",
                       lambda: f"event count {pe.get('event count')} != {len(dp)}")
-    if not emptied:
-        rec.check(total == int(keep.sum()), f"split/total/{tag}",
-                  lambda: f"parts hold {total} events, source {n}, documented skips "
-                          f"{int((~keep).sum())}")
+    rec.check(total == int(keep.sum()), f"split/total/{tag}",
+              lambda: f"parts hold {total} events, source {n}, documented skips "
+                      f"{int((~keep).sum())}")
     # ---- round trip
     rt = spec["rt"]
-    good = [pp for pp, ix in zip(paths, exp_idx) if len(ix)]
-    gidx = [ix for ix in exp_idx if len(ix)]
-    if rt == "none" or len(good) < 2 or len(good) != len(paths):
+    good = [pp for pp, ix in pairs if len(ix)]
+    gidx = [ix for pp, ix in pairs if len(ix)]
+    if rt == "none" or len(good) < 2:
         return
     if rt == "reversed":
         good, gidx = good[::-1], gidx[::-1]
